@@ -21,6 +21,7 @@ var suitesByProp = map[string][]func(*runner, *rng){
 	"C16": {suiteDur, suiteFracFloat},
 	"C15": {suiteLin},
 	"C01": {suiteSrt},
+	"C02": {suiteVtt},
 	"C17": {suiteSchedules},
 	"C19": {suiteDeterminism},
 	"C08": {suiteTotality},
